@@ -17,6 +17,7 @@ import (
 	"encoding/json"
 	"flag"
 	"fmt"
+	"io"
 	"os"
 	"reflect"
 	"runtime/debug"
@@ -880,6 +881,139 @@ func runPlace() {
 	finish()
 }
 
+// ---- resume: multi-value inputs decoded value by value (Decoder.Decode loop, StreamDecoder) after an earlier, longer parse left its
+// bytes in the pooled parser; the last value is truncated at every offset.  Oracles: encoding/json's Decoder on the same bytes, and the
+// same run after a different earlier parse (the outcome may depend on the input bytes only).
+func decodeLoop(s string, useNumber bool) (res []string) {
+	defer func() {
+		if r := recover(); r != nil {
+			m := fmt.Sprintf("PANIC:%v", r)
+			if len(m) > 120 {
+				m = m[:120]
+			}
+			res = append(res, m)
+		}
+	}()
+	writeProgress("decoder.Decode-loop", []byte(s))
+	d := decoder.NewDecoder(s)
+	if useNumber {
+		d.UseNumber()
+	}
+	for i := 0; i < 12; i++ {
+		var v interface{}
+		err := d.Decode(&v)
+		if err != nil {
+			res = append(res, "err")
+			break
+		}
+		if d.Pos() > len(s) {
+			res = append(res, fmt.Sprintf("pos %d beyond the input (len %d)", d.Pos(), len(s)))
+			break
+		}
+		res = append(res, "ok:"+dump(v))
+		if strings.TrimSpace(s[d.Pos():]) == "" {
+			break // only blanks left: encoding/json ends the stream here, too
+		}
+	}
+	return res
+}
+
+func stdLoop(s string, useNumber bool) []string {
+	var res []string
+	d := json.NewDecoder(strings.NewReader(s))
+	if useNumber {
+		d.UseNumber()
+	}
+	for i := 0; i < 12; i++ {
+		var v interface{}
+		if err := d.Decode(&v); err != nil {
+			if err != io.EOF {
+				res = append(res, "err")
+			}
+			break
+		}
+		res = append(res, "ok:"+dump(v))
+	}
+	return res
+}
+
+func streamLoop(s string) []string {
+	var res []string
+	d := decoder.NewStreamDecoder(strings.NewReader(s))
+	for i := 0; i < 12; i++ {
+		var v interface{}
+		if err := d.Decode(&v); err != nil {
+			if err != io.EOF {
+				res = append(res, "err")
+			}
+			break
+		}
+		res = append(res, "ok:"+dump(v))
+	}
+	return res
+}
+
+func runResume() {
+	if *progress != "" {
+		pf, _ = os.Create(*progress)
+	}
+	primes := []string{
+		"[" + strings.Repeat("7,", 200) + "7]",
+		strings.Repeat("[", 150) + strings.Repeat("]", 150),
+		strings.Repeat(`{"a":`, 80) + "1" + strings.Repeat("}", 80),
+		`["` + strings.Repeat(`x","`, 100) + `x"]`,
+		`[` + strings.Repeat(`true,null,false,`, 40) + `0]`,
+		strings.Repeat(" ", 300) + "1",
+	}
+	values := []string{`[1,2,3]`, `{"a":1,"b":[true,null]}`, `"str"`, `[4,5,6,7]`, `{"k":{"x":"y"}}`, `true`, `null`, `[[1],[2,[3]]]`, `12 `, `-3.5e2 `, `[]`, `{}`, `["a","b"]`}
+	root := rng.New(*seed)
+	cases := 0
+	for i := 0; i < *n; i++ {
+		r := root.Fork(uint64(i))
+		var b strings.Builder
+		for k := 1 + r.Intn(3); k > 0; k-- {
+			b.WriteString(values[r.Intn(len(values))])
+			if r.Chance(1, 3) {
+				b.WriteString([]string{" ", "\n", "  "}[r.Intn(3)])
+			}
+		}
+		last := values[r.Intn(len(values))]
+		head := b.String()
+		for cut := 0; cut <= len(last); cut++ {
+			s := head + last[:cut]
+			useNumber := r.Bool()
+			want := stdLoop(s, useNumber)
+			var first []string
+			for pi, pr := range primes {
+				// leave the bytes of an earlier, longer parse in the pooled parser
+				var junk interface{}
+				_ = sonic.UnmarshalString(pr, &junk)
+				got := decodeLoop(s, useNumber)
+				cases++
+				rep.Evaluations++
+				rep.PerEntry["decoder.Decode-loop"]++
+				if pi == 0 {
+					first = got
+				}
+				if strings.Join(got, "|") != strings.Join(first, "|") {
+					fail("decoder.Decode-loop", "tail-dependent", []byte(s), fmt.Sprintf("the outcome depends on what was parsed BEFORE (prime #%d): %v, otherwise %v", pi, got, first))
+					break
+				}
+				if strings.Join(got, "|") != strings.Join(want, "|") {
+					fail("decoder.Decode-loop", "tail-dependent", []byte(s), fmt.Sprintf("value-by-value decoding after an earlier parse (prime #%d): %v, encoding/json Decoder on the same bytes: %v", pi, got, want))
+					break
+				}
+			}
+			if got := streamLoop(s); !useNumber && strings.Join(got, "|") != strings.Join(want, "|") {
+				fail("StreamDecoder.Decode-loop", "tail-dependent", []byte(s), fmt.Sprintf("StreamDecoder: %v, encoding/json Decoder: %v", got, want))
+			}
+		}
+		rep.PerGen["multi-value-truncated"]++
+	}
+	rep.Nontrivial = cases
+	finish()
+}
+
 func finish() {
 	for k := range rep.FailCount {
 		if strings.HasPrefix(k, "#") {
@@ -906,6 +1040,8 @@ func main() {
 		runModel()
 	case "place":
 		runPlace()
+	case "resume":
+		runResume()
 	default:
 		fmt.Fprintln(os.Stderr, "unknown mode")
 		os.Exit(2)
